@@ -89,20 +89,21 @@ func (c *Ctx) TmpDir() string { return c.w.tmp }
 
 // Property describes one check
 type Property struct {
-	ID          string
-	Level       string // exploration | fault_enumeration
-	Rule        string
-	Assumptions []string
-	Cases       func(tier string) int64
-	Run         func(c *Ctx) Outcome
-	Workers     int                      // 0 = up to 16
-	Setup       func(c *Ctx) error       // once per worker, before the cases
-	Final       func(c *Ctx) []Outcome   // once per worker, after the cases (state canaries…)
-	MinDistinct func(tier string) int64  // below this many distinct non-trivial cases the run is inconclusive
-	Exhaustive  func(tier string) string // non-empty: description of the finite space enumerated completely
-	Timeout     func(tier string) time.Duration
-	Driver      func(d *DriverCtx) []Outcome // optional process-level phase run by the driver itself
-	Anchors     []string                     // functions whose execution the workload must reach (informational)
+	ID           string
+	Level        string // exploration | fault_enumeration
+	Rule         string
+	Assumptions  []string
+	Cases        func(tier string) int64
+	Run          func(c *Ctx) Outcome
+	Workers      int                      // 0 = up to 16
+	Setup        func(c *Ctx) error       // once per worker, before the cases
+	Final        func(c *Ctx) []Outcome   // once per worker, after the cases (state canaries…)
+	MinDistinct  func(tier string) int64  // below this many distinct non-trivial cases the run is inconclusive
+	Exhaustive   func(tier string) string // non-empty: description of the finite space enumerated completely
+	Timeout      func(tier string) time.Duration
+	Driver       func(d *DriverCtx) []Outcome // optional process-level phase run by the driver itself
+	Anchors      []string                     // functions whose execution the workload must reach (informational)
+	StallSeconds int                          // a case running longer than this is handled by the hang protocol (default 300)
 }
 
 // DriverCtx is handed to the optional driver-level phase
@@ -461,9 +462,56 @@ func drive(id, tier string) int {
 		ws[i] = st
 	}
 	deadline := time.After(tierTimeout(p, tier))
+	// stall detector: a worker whose breadcrumb has not moved for StallSeconds is treated like a watchdog timeout
+	stall := 300 * time.Second
+	if p.StallSeconds > 0 {
+		stall = time.Duration(p.StallSeconds) * time.Second
+	}
+	stalled := make(chan struct{}, 1)
+	stopPoll := make(chan struct{})
+	defer close(stopPoll)
+	go func() {
+		last := make([]int64, n)
+		since := make([]time.Time, n)
+		for i := range since {
+			last[i], since[i] = -99, time.Now()
+		}
+		t := time.NewTicker(time.Second)
+		defer t.Stop()
+		for {
+			select {
+			case <-stopPoll:
+				return
+			case <-t.C:
+				for i := 0; i < n; i++ {
+					b, err := os.ReadFile(filepath.Join(dir, fmt.Sprintf("w%d.crumb", i)))
+					if err != nil || len(b) < 8 {
+						continue
+					}
+					if _, err := os.Stat(filepath.Join(dir, fmt.Sprintf("w%d.json", i))); err == nil {
+						since[i] = time.Now()
+						continue
+					}
+					v := int64(binary.LittleEndian.Uint64(b))
+					if v != last[i] {
+						last[i], since[i] = v, time.Now()
+					} else if time.Since(since[i]) > stall {
+						select {
+						case stalled <- struct{}{}:
+						default:
+						}
+						return
+					}
+				}
+			}
+		}
+	}()
 	for i := 0; i < n; i++ {
 		select {
 		case ws[i].err = <-ws[i].done:
+		case <-stalled:
+			deadline = time.After(0)
+			i--
 		case <-deadline:
 			// Watchdog: dump goroutines, then kill every remaining worker
 			for j := i; j < n; j++ {
